@@ -310,34 +310,42 @@ Section JwtProofs.
     apply app_inv_head in E. congruence.
   Qed.
 
-  (** Under the idealisation that the MAC is injective: the same signature
-      under any other first two segments is rejected. *)
-  Definition mac_binds : Prop := forall k d k' d', mac k d = mac k' d' -> k = k' /\ d = d'.
+  (** Under the second-preimage idealisation for the signed text of the issued
+      token: the issued signature segment under any other first two segments is
+      rejected. *)
+  Definition second_preimage_free (k : K) (d : bytes) : Prop :=
+    forall d', d' <> d -> mac k d' <> mac k d.
 
-  Theorem hs_other_payload_text_rejected : mac_binds -> forall k pin now now' tok tok' t t',
+  Theorem hs_other_payload_text_rejected k pin now now' tok tok' t t' :
+    second_preimage_free k (t_payload t) ->
     hs_verify k pin now tok = JOk t -> hs_verify k pin now' tok' = JOk t' ->
     t_sig t' = t_sig t -> tok' = tok.
   Proof.
-    intros B k pin now now' tok tok' t t' A A' E.
+    intros B A A' E.
     apply (hs_token_unique k pin now' now tok' tok t' t A' A).
     apply hs_verify_iff in A, A'.
     destruct A as (hb & cb & _ & _ & _ & _ & _ & _ & _ & Pa & Sa).
     destruct A' as (hb' & cb' & _ & _ & _ & _ & _ & _ & _ & Pb & Sb).
-    rewrite Sa, Sb in E. apply B in E. destruct E as [_ E]. congruence.
+    rewrite Sa, Sb, <- Pa, <- Pb in E.
+    destruct (list_eq_dec N.eq_dec (t_payload t') (t_payload t)) as [Q|D]; [exact Q|].
+    now apply B in D.
   Qed.
 
-  Theorem hs_other_key_rejected : mac_binds -> forall k k' pin now now' tok t,
-    k' <> k -> hs_verify k pin now tok = JOk t -> is_err (hs_verify k' pin now' tok).
+  (** Under another key the token verifies only if that key gives the signed
+      text the same MAC. *)
+  Theorem hs_other_key_rejected k k' pin now now' tok t :
+    mac k' (t_payload t) <> mac k (t_payload t) ->
+    hs_verify k pin now tok = JOk t -> is_err (hs_verify k' pin now' tok).
   Proof.
-    intros B k k' pin now now' tok t N A.
+    intros N A.
     destruct (hs_verify k' pin now' tok) as [t'|] eqn:A'; [|exact I]. exfalso.
     apply hs_verify_iff in A, A'.
-    destruct A as (hb & cb & Hh & Hc & E & _).
+    destruct A as (hb & cb & Hh & Hc & E & _ & _ & _ & _ & Pa & _).
     destruct A' as (hb' & cb' & Hh' & Hc' & E' & _).
     unfold Jwt.jwt_sign in E, E'. rewrite E in E'.
     destruct (cut_last_sep _ _ _ _ _ (b64_nosep _ (mac_bytes _ _)) (b64_nosep _ (mac_bytes _ _)) E') as [T S].
     apply b64_encode_inj in S; [|apply mac_bytes|apply mac_bytes].
-    rewrite T in S. apply B in S. destruct S as [-> _]. contradiction.
+    rewrite <- T, <- Pa in S. now symmetry in S.
   Qed.
 
   (** ** RS256 with an identity card *)
